@@ -236,3 +236,320 @@ Proof.
   intros int_of argv. unfold m_options. destruct (ap_parse int_of guesser_parser argv) as [ns|] eqn:P; [|reflexivity].
   destruct (guesser_ns_typed _ _ _ P) as [o [E1 E2]]. rewrite E2. simpl. congruence.
 Qed.
+
+(* ---------------------------------------------------------------- toggles: store_const *)
+
+Definition occ_dest_is (d : str) (oc : rawocc) : bool := str_eqb (ao_dest (fst oc)) d.
+
+(* every option of the parser that stores into [d] is a store_const of True *)
+Definition toggle_dest (p : parser) (d : str) : Prop :=
+  forall o, In o p -> str_eqb (ao_dest o) d = true -> ao_action o = AStoreConst /\ ao_const o = VBool true.
+
+Lemma ap_value_dest : forall int_of oc dv, ap_value int_of oc = Some dv -> fst dv = ao_dest (fst oc).
+Proof.
+  intros int_of [o s] [d v]. unfold ap_value. simpl.
+  destruct (ao_action o); [|intros H; inversion H; reflexivity|discriminate].
+  destruct s as [x|]; [|discriminate].
+  destruct (if ao_int o then _ else _) as [v'|]; [|discriminate].
+  destruct (ao_choices o) as [[| | | |ch|]|]; try discriminate.
+  - destruct (py_in_list v' ch); [|discriminate]. intros H; inversion H; reflexivity.
+  - intros H; inversion H; reflexivity.
+Qed.
+
+Lemma toggle_fold : forall int_of p d, toggle_dest p d ->
+  forall occs vals ns0, Forall (occ_in p) occs -> map_opt (ap_value int_of) occs = Some vals ->
+  d_get d (fold_left (fun ns dv => d_set (fst dv) (snd dv) ns) vals ns0) =
+  if existsb (occ_dest_is d) occs then Some (VBool true) else d_get d ns0.
+Proof.
+  intros int_of p d Ht. induction occs as [|oc r IH]; simpl; intros vals ns0 Hin H.
+  - inversion H; subst. reflexivity.
+  - destruct (ap_value int_of oc) as [dv|] eqn:V; [|discriminate].
+    destruct (map_opt (ap_value int_of) r) as [vals'|] eqn:R; [|discriminate]. inversion H; subst.
+    inversion Hin; subst. cbn [fold_left]. rewrite (IH vals' _ H3 eq_refl).
+    pose proof (ap_value_dest _ _ _ V) as Hd.
+    destruct (existsb (occ_dest_is d) r) eqn:Ex; [rewrite orb_true_r; reflexivity|]. rewrite orb_false_r.
+    unfold occ_dest_is. destruct (str_eqb (ao_dest (fst oc)) d) eqn:Ed.
+    + destruct (Ht _ H2 Ed) as [Ha Hc]. apply seqb_eq in Ed.
+      destruct oc as [o s]. destruct dv as [d' v]. unfold ap_value in V. simpl in *. rewrite Ha in V.
+      inversion V; subst. rewrite Hc. apply d_get_set_same.
+    + rewrite d_get_set_other; [reflexivity|]. rewrite Hd. apply seqb_neq. apply seqb_neq in Ed. congruence.
+Qed.
+
+Lemma guesser_toggle_load : toggle_dest guesser_parser (lit "load").
+Proof. intros o [<-|[<-|[<-|[<-|[<-|[<-|[<-|[<-|[<-|[]]]]]]]]]] H; try discriminate H; split; reflexivity. Qed.
+Lemma guesser_toggle_skip_brute : toggle_dest guesser_parser (lit "skip_brute").
+Proof. intros o [<-|[<-|[<-|[<-|[<-|[<-|[<-|[<-|[<-|[]]]]]]]]]] H; try discriminate H; split; reflexivity. Qed.
+Lemma guesser_toggle_skip_case : toggle_dest guesser_parser (lit "skip_case").
+Proof. intros o [<-|[<-|[<-|[<-|[<-|[<-|[<-|[<-|[<-|[]]]]]]]]]] H; try discriminate H; split; reflexivity. Qed.
+Lemma guesser_toggle_debug : toggle_dest guesser_parser (lit "debug").
+Proof. intros o [<-|[<-|[<-|[<-|[<-|[<-|[<-|[<-|[<-|[]]]]]]]]]] H; try discriminate H; split; reflexivity. Qed.
+
+(* store_const: a toggle is True exactly when its option occurs on the command line, however often *)
+Theorem guesser_toggles : forall int_of argv occs o,
+  ap_occs guesser_parser argv = Some occs -> m_options int_of argv = Some o ->
+  o_load o = existsb (occ_dest_is (lit "load")) occs /\
+  o_skip_brute o = existsb (occ_dest_is (lit "skip_brute")) occs /\
+  o_skip_case o = existsb (occ_dest_is (lit "skip_case")) occs /\
+  o_debug o = existsb (occ_dest_is (lit "debug")) occs.
+Proof.
+  intros int_of argv occs o Hocc Ho. pose proof (m_options_ns int_of argv) as Hns. rewrite Ho in Hns. simpl in Hns.
+  unfold ap_parse in Hns. rewrite Hocc in Hns.
+  destruct (map_opt (ap_value int_of) occs) as [vals|] eqn:V; [|discriminate]. inversion Hns as [Hf]. clear Hns.
+  pose proof (ap_occs_in _ _ _ Hocc) as Hin.
+  pose proof (toggle_fold int_of _ _ guesser_toggle_load occs vals (ap_defaults guesser_parser) Hin V) as H1.
+  pose proof (toggle_fold int_of _ _ guesser_toggle_skip_brute occs vals (ap_defaults guesser_parser) Hin V) as H2.
+  pose proof (toggle_fold int_of _ _ guesser_toggle_skip_case occs vals (ap_defaults guesser_parser) Hin V) as H3.
+  pose proof (toggle_fold int_of _ _ guesser_toggle_debug occs vals (ap_defaults guesser_parser) Hin V) as H4.
+  rewrite Hf in H1, H2, H3, H4. destruct o as [r s l lim sb sc d m].
+  change (d_get (lit "load") (ns_of_options _)) with (Some (VBool l)) in H1.
+  change (d_get (lit "skip_brute") (ns_of_options _)) with (Some (VBool sb)) in H2.
+  change (d_get (lit "skip_case") (ns_of_options _)) with (Some (VBool sc)) in H3.
+  change (d_get (lit "debug") (ns_of_options _)) with (Some (VBool d)) in H4.
+  change (d_get (lit "load") (ap_defaults guesser_parser)) with (Some (VBool false)) in H1.
+  change (d_get (lit "skip_brute") (ap_defaults guesser_parser)) with (Some (VBool false)) in H2.
+  change (d_get (lit "skip_case") (ap_defaults guesser_parser)) with (Some (VBool false)) in H3.
+  change (d_get (lit "debug") (ap_defaults guesser_parser)) with (Some (VBool false)) in H4.
+  cbn [o_load o_skip_brute o_skip_case o_debug].
+  repeat split.
+  - destruct (existsb (occ_dest_is (lit "load")) occs); congruence.
+  - destruct (existsb (occ_dest_is (lit "skip_brute")) occs); congruence.
+  - destruct (existsb (occ_dest_is (lit "skip_case")) occs); congruence.
+  - destruct (existsb (occ_dest_is (lit "debug")) occs); congruence.
+Qed.
+
+(* one token that is a toggle: it is seen, and the rest of the command line is read as before *)
+Lemma ap_scan_toggle : forall p t o f cls, takes_arg o = false ->
+  ap_scan p ((t, TOpt o f None) :: cls) = option_map (cons (o, None)) (ap_scan p cls).
+Proof. intros p t o f cls H. simpl. unfold start_opt. rewrite H. destruct (ap_scan p cls); reflexivity. Qed.
+
+Theorem ap_occs_toggle : forall p t o f argv, classify p t = TOpt o f None -> takes_arg o = false ->
+  str_eqb [45; 45] t = false ->
+  ap_occs p (t :: argv) = option_map (cons (o, None)) (ap_occs p argv).
+Proof.
+  intros p t o f argv Hc Ht Hd. unfold ap_occs. cbn [existsb map]. rewrite Hd. cbn [orb].
+  destruct (existsb (str_eqb [45; 45]) argv); [reflexivity|]. rewrite Hc. apply ap_scan_toggle. exact Ht.
+Qed.
+
+(* the limit test of parse_command_line: refused exactly for a negative limit *)
+Theorem m_parse_refuses : forall int_of argv b o, m_parse int_of argv = Some (b, o) ->
+  (b = false <-> exists z, o_limit o = Some z /\ (z < 0)%Z).
+Proof.
+  intros int_of argv b o. unfold m_parse. destruct (m_options int_of argv) as [o'|]; [|discriminate].
+  intros H. inversion H; subst. unfold limit_refused. destruct (o_limit o) as [z|]; simpl.
+  - split.
+    + intros Hb. exists z. split; auto. apply negb_false_iff in Hb. apply andb_true_iff in Hb. destruct Hb as [H1 H2].
+      apply negb_true_iff in H1. apply Z.eqb_neq in H1. apply Z.leb_le in H2. lia.
+    + intros [z' [E Hz]]. inversion E; subst. apply negb_false_iff. apply andb_true_iff. split.
+      * apply negb_true_iff. apply Z.eqb_neq. lia.
+      * apply Z.leb_le. lia.
+  - split; [discriminate|]. intros [z [E _]]. discriminate.
+Qed.
+
+(* ---------------------------------------------------------------- configparser *)
+
+Lemma kv_get_set_same : forall k v kv, kv_get k (kv_set k v kv) = Some v.
+Proof.
+  induction kv as [|[k' v'] r IH]; simpl.
+  - rewrite key_eqb_is, seqb_refl. reflexivity.
+  - destruct (key_eqb k k') eqn:E; simpl; rewrite E; auto.
+Qed.
+Lemma kv_get_set_other : forall k k' v kv, str_eqb k k' = false -> kv_get k (kv_set k' v kv) = kv_get k kv.
+Proof.
+  induction kv as [|[k2 v2] r IH]; simpl; intros H.
+  - rewrite key_eqb_is, H. reflexivity.
+  - destruct (key_eqb k' k2) eqn:E; simpl.
+    + rewrite key_eqb_is in E. apply seqb_eq in E. subst k2. rewrite key_eqb_is, H. reflexivity.
+    + destruct (key_eqb k k2); auto.
+Qed.
+
+(* cfg.set(s', k', v) leaves every other option as it was *)
+Lemma cfg_lookup_set_other : forall s k s' k' v c, str_eqb s s' && str_eqb k k' = false ->
+  cfg_lookup s k (cfg_set_in s' k' v c) = cfg_lookup s k c.
+Proof.
+  intros s k s' k' v c H. unfold cfg_lookup. induction c as [|[s2 kv] r IH]; simpl; [reflexivity|].
+  destruct (key_eqb s' s2) eqn:E1; simpl.
+  - destruct (key_eqb s s2) eqn:E2; [|reflexivity].
+    rewrite key_eqb_is in E1, E2. apply seqb_eq in E1. apply seqb_eq in E2. subst.
+    rewrite seqb_refl in H. simpl in H. apply kv_get_set_other. exact H.
+  - destruct (key_eqb s s2); [reflexivity|exact IH].
+Qed.
+Lemma cfg_lookup_set_same : forall s k v c, cfg_has_section s c = true ->
+  cfg_lookup s k (cfg_set_in s k v c) = Some v.
+Proof.
+  intros s k v c. unfold cfg_lookup, cfg_has_section. induction c as [|[s2 kv] r IH]; simpl; [discriminate|].
+  destruct (key_eqb s s2) eqn:E; simpl; rewrite E; [intros _; apply kv_get_set_same|exact IH].
+Qed.
+
+Lemma boolean_of_str_of_bool : forall b, boolean_of (str_of_bool b) = Some b.
+Proof. intros [|]; reflexivity. Qed.
+
+(* round trip: a save file that still says what create_save_config wrote (and has the uuid and
+   last_updated the session adds) is loaded with exactly the rule name and flags that were saved *)
+Theorem save_load_round_trip : forall now rule sb sc c,
+  cfg_lookup k_rule_info (lit "rule_name") c = cfg_lookup k_rule_info (lit "rule_name") (m_create_save_config now rule sb sc) ->
+  cfg_lookup k_rule_info (lit "skip_brute") c = cfg_lookup k_rule_info (lit "skip_brute") (m_create_save_config now rule sb sc) ->
+  cfg_lookup k_rule_info (lit "skip_case") c = cfg_lookup k_rule_info (lit "skip_case") (m_create_save_config now rule sb sc) ->
+  cfg_has_option k_rule_info (lit "uuid") c = true ->
+  cfg_has_option k_session_info (lit "last_updated") c = true ->
+  m_load_save (FCfg c) = LOk c rule sb sc.
+Proof.
+  intros now rule sb sc c H1 H2 H3 H4 H5. unfold m_load_save, cfg_has_option in *.
+  rewrite H1, H2, H3.
+  change (cfg_lookup k_rule_info (lit "rule_name") (m_create_save_config now rule sb sc)) with (Some rule).
+  change (cfg_lookup k_rule_info (lit "skip_brute") (m_create_save_config now rule sb sc)) with (Some (str_of_bool sb)).
+  change (cfg_lookup k_rule_info (lit "skip_case") (m_create_save_config now rule sb sc)) with (Some (str_of_bool sc)).
+  destruct (cfg_lookup k_rule_info (lit "uuid") c); [|discriminate].
+  destruct (cfg_lookup k_session_info (lit "last_updated") c); [|discriminate].
+  simpl. rewrite !boolean_of_str_of_bool. reflexivity.
+Qed.
+
+(* the file a session leaves: create_save_config, then main's uuid, the session's last_updated and
+   whatever the session stores under guessing_info *)
+Fixpoint set_guessing (l : list (str * str)) (c : config) : config :=
+  match l with
+  | [] => c
+  | (k, v) :: r => set_guessing r (cfg_set_in k_guessing_info k v c)
+  end.
+
+Lemma set_guessing_lookup : forall l s k c, str_eqb s k_guessing_info = false ->
+  cfg_lookup s k (set_guessing l c) = cfg_lookup s k c.
+Proof.
+  induction l as [|[k' v] r IH]; simpl; intros s k c H; [reflexivity|].
+  rewrite IH by exact H. apply cfg_lookup_set_other. rewrite H. reflexivity.
+Qed.
+
+Corollary session_file_round_trip : forall now rule sb sc uuid stamp guessing,
+  m_load_save (FCfg (set_guessing guessing
+     (cfg_set_in k_session_info (lit "last_updated") stamp
+        (cfg_set_in k_rule_info (lit "uuid") uuid (m_create_save_config now rule sb sc))))) =
+  LOk (set_guessing guessing
+     (cfg_set_in k_session_info (lit "last_updated") stamp
+        (cfg_set_in k_rule_info (lit "uuid") uuid (m_create_save_config now rule sb sc)))) rule sb sc.
+Proof.
+  intros now rule sb sc uuid stamp guessing. apply (save_load_round_trip now); unfold cfg_has_option;
+    rewrite set_guessing_lookup by reflexivity; reflexivity.
+Qed.
+
+(* ---------------------------------------------------------------- main *)
+
+Definition no_grammar (l : list event) : Prop :=
+  Forall (fun e => match e with EGrammar _ => False | _ => True end) l.
+
+Ltac crunch H :=
+  repeat match type of H with
+         | context [match ?x with _ => _ end] =>
+           lazymatch x with
+           | context [match _ with _ => _ end] => fail
+           | _ => destruct x eqn:?
+           end
+         end.
+
+(* (1) --load: the grammar is built with exactly the saved rule name, skip_brute and skip_case,
+   whatever was typed *)
+Theorem main_load_uses_saved : forall E ver o c rule sb sc e log,
+  m_parse (e_int_of E) (e_argv E) = Some (true, o) -> resumes o = true ->
+  m_load_save (e_fs E (save_name E o)) = LOk c rule sb sc ->
+  m_main E ver = (e, log) ->
+  exists g rest, log = EGrammar g :: rest /\ no_grammar rest /\
+    gc_rule_name g = VStr rule /\ gc_skip_brute g = VBool sb /\ gc_skip_case g = VBool sc /\
+    gc_base_directory g = VStr (e_pjoin E [e_script_dir E; lit "Rules"; rule]) /\
+    gc_save_file g = VStr (save_name E o).
+Proof.
+  intros E ver o c rule sb sc e log Hp Hr Hl H. unfold m_main in H. rewrite Hp, Hr, Hl in H.
+  cbv beta iota zeta in H. crunch H; inversion H; subst; eexists; eexists; (split; [reflexivity|]);
+    (split; [repeat constructor|]); repeat split.
+Qed.
+
+(* ... and a save file that cannot be used stops main before any grammar is built *)
+Theorem main_load_failure : forall E ver o,
+  m_parse (e_int_of E) (e_argv E) = Some (true, o) -> resumes o = true ->
+  match m_load_save (e_fs E (save_name E o)) with
+  | LFail => m_main E ver = (MDone, [])
+  | LCrash e => m_main E ver = (MRaise e, [])
+  | LOk _ _ _ _ => True
+  end.
+Proof.
+  intros E ver o Hp Hr. unfold m_main. rewrite Hp, Hr. cbv beta iota zeta.
+  destruct (m_load_save (e_fs E (save_name E o))); auto.
+Qed.
+
+(* (3) no restored session: the typed flags are used *)
+Theorem main_uses_typed : forall E ver o e log,
+  m_parse (e_int_of E) (e_argv E) = Some (true, o) -> resumes o = false ->
+  m_main E ver = (e, log) ->
+  exists g rest, log = EGrammar g :: rest /\ no_grammar rest /\
+    gc_rule_name g = VStr (o_rule o) /\ gc_skip_brute g = VBool (o_skip_brute o) /\
+    gc_skip_case g = VBool (o_skip_case o) /\ gc_debug g = VBool (o_debug o) /\
+    gc_save_file g = VStr (save_name E o).
+Proof.
+  intros E ver o e log Hp Hr H. unfold m_main in H. rewrite Hp, Hr in H.
+  cbv beta iota zeta in H. crunch H; inversion H; subst; eexists; eexists; (split; [reflexivity|]);
+    (split; [repeat constructor|]); repeat split.
+Qed.
+
+(* (4) the limit (and the load flag) a session is run with are the typed ones, restored or not;
+   the session is given the save file name <script dir>/<session>.sav *)
+Theorem main_session_arguments : forall E ver o e log,
+  m_parse (e_int_of E) (e_argv E) = Some (true, o) -> m_main E ver = (e, log) ->
+  Forall (fun ev => match ev with
+                    | ECrackRun s ld lim =>
+                      ld = VBool (o_load o) /\ lim = v_limit (o_limit o) /\
+                      cs_save_filename s = VStr (save_name E o) /\ In (EGrammar (g_call (cs_pcfg s))) log
+                    | EHoneyRun s lim =>
+                      lim = v_limit (o_limit o) /\ hs_mode s = VStr (o_mode o) /\ In (EGrammar (g_call (hs_pcfg s))) log
+                    | _ => True
+                    end) log.
+Proof.
+  intros E ver o e log Hp H. unfold m_main in H. rewrite Hp in H. cbv beta iota zeta in H.
+  crunch H; inversion H; subst; repeat constructor; simpl; auto.
+Qed.
+
+(* a command line that is refused runs nothing *)
+Theorem main_refused : forall E ver,
+  match m_parse (e_int_of E) (e_argv E) with
+  | None => m_main E ver = (MRaise SystemExit, [])
+  | Some (false, _) => m_main E ver = (MDone, [])
+  | Some (true, _) => True
+  end.
+Proof. intros E ver. unfold m_main. destruct (m_parse (e_int_of E) (e_argv E)) as [[[|] o]|]; auto. Qed.
+
+(* main itself writes nothing to standard output *)
+Theorem main_no_stdout : forall E ver, ~ In EStdout (snd (m_main E ver)).
+Proof.
+  intros E ver. destruct (m_main E ver) as [e log] eqn:H. simpl. unfold m_main in H.
+  crunch H; inversion H; subst; simpl; intuition discriminate.
+Qed.
+
+(* the uuid test: a restored session whose saved uuid differs from the ruleset's is refused
+   (no session is run); with the same uuid the session gets the loaded config, unchanged *)
+Theorem main_uuid : forall E ver o c rule sb sc e log u,
+  m_parse (e_int_of E) (e_argv E) = Some (true, o) -> resumes o = true ->
+  m_load_save (e_fs E (save_name E o)) = LOk c rule sb sc ->
+  cfg_lookup k_rule_info (lit "uuid") c = Some u ->
+  m_main E ver = (e, log) ->
+  exists g, log = EGrammar g :: match e_grammar E g with
+                               | None => []
+                               | Some u' =>
+                                 if py_eqb (VStr u) u' then
+                                   [ECrackRun {| cs_pcfg := {| g_call := g; g_uuid := u' |}; cs_save_config := VCfg c;
+                                                 cs_save_filename := VStr (save_name E o) |} (VBool true) (v_limit (o_limit o))]
+                                 else []
+                               end.
+Proof.
+  intros E ver o c rule sb sc e log u Hp Hr Hl Hu H. unfold m_main in H. rewrite Hp, Hr, Hl in H.
+  cbv beta iota zeta in H. unfold resumes in Hr. apply andb_true_iff in Hr. destruct Hr as [Hm Hld].
+  rewrite Hm, Hu, Hld in H. eexists.
+  destruct (e_grammar E _) as [u'|] eqn:G; [destruct (py_eqb (VStr u) u') eqn:Q|]; simpl in H;
+    inversion H; subst; rewrite G; try rewrite Q; reflexivity.
+Qed.
+
+(* load_save accepts a file exactly when it has the five options and both flags are boolean words *)
+Theorem load_save_checks : forall c rule sb sc, m_load_save (FCfg c) = LOk c rule sb sc ->
+  cfg_lookup k_rule_info (lit "rule_name") c = Some rule /\
+  (exists s, cfg_lookup k_rule_info (lit "skip_brute") c = Some s /\ boolean_of s = Some sb) /\
+  (exists s, cfg_lookup k_rule_info (lit "skip_case") c = Some s /\ boolean_of s = Some sc) /\
+  cfg_has_option k_rule_info (lit "uuid") c = true /\ cfg_has_option k_session_info (lit "last_updated") c = true.
+Proof.
+  intros c rule sb sc H. unfold m_load_save, cfg_has_option in *.
+  crunch H; try discriminate. inversion H; subst. repeat split; eauto.
+Qed.
